@@ -50,28 +50,28 @@ CLAIMS = {
     "C01": {
         "category": "proof",
         "design_ref": 'DESIGN.md §5 C01',
-        "text": "PARTIAL towards the targets c01_string_target / c01_matrix_target / port-graph target (Props/Targets.lean). Proved, for every automaton, domain and host: T-RUN-SOUND (trun_sound, mem_emitMatches: every reported match is emitted at a configuration reachable along transitions whose constraints evaluated to true on the binding current at that step, and binds the pattern's key list through bind_all/retain_keys), trun_expanded; T-DOM soundness halves (tdom_str_sat_iff, tdom_mat_sat_iff: the constraints of a pattern hold under the canonical binding iff the pattern occurs there; tdom_*_keys/covers: every cell is mentioned, after the F2 fix; tdom_mat_old_unsound: the pinned matrix conversion violated C01). Missing for the full statement: T-BUILD (in progress) and the anchored-traversal theorem linking path constraints to the final binding. Decided per run for the automata actually built and the hosts generated by: exact replay of every build (model = code, state ids and edge ids included), model traversal on the dumped automaton, and the executable occurrence oracle evaluated on the implementation's own matches. Port graphs: the reported node map must be an injective link-preserving embedding (checked, not searched).",
+        "text": "FULL for strings up to a per-program decidable check; PARTIAL for matrices and port graphs. STRINGS: c01_c02_string_checked (Props/TRunStr.lean) proves, for every string pattern list, every event log (heuristic answers and hash orders), every fuel and EVERY host: the matcher reports (i, m) iff the i-th pattern is empty and m is the unbound map, or it occurs at some anchor a and m = bound a |p| — soundness, completeness and the match data in one iff — for every build that passes the decidable per-program condition strProgramOK (scope/key-list shapes; evaluated by the driver on the DUMP of every string automaton built: all of >20 000 pass). It composes T-BUILD (build_acc, all logs), the anchored traversal theorem trun_str (for ALL hosts: run = anchored acceptance, pruning lossless), T-DOM (tdom_str_sat_iff) and c06_ids_are_positions. Removing the per-program condition (strProgramOK for every built automaton) is in progress. MATRICES: T-BUILD, T-DOM (tdom_mat_sat_iff, after the F2 fix; tdom_mat_old_unsound shows the pinned conversion violated C01) and T-RUN-SOUND are proved; the anchored traversal theorem for matrices (trun_mat) is in progress. PORT GRAPHS: T-RUN-SOUND + T-BUILD + single-constraint semantics (tpg_connected_link, tpg_notequal); the composition is not proved. Decided per run for the automata actually built and the hosts generated by: exact replay of every build (model = code, state ids and edge ids included), model traversal on the dumped automaton, and the executable occurrence oracle evaluated on the implementation's own matches. Port graphs: the reported node map, read through the keys constraint_vec assigns, must be an injective link-preserving embedding (checked, not searched).",
         "note": NOTE_COMMON + "Hash-iteration order is an explicit, logged and replayed choice sequence; FxHasher in visit() is modelled as injective; usize as Nat.",
         "technique": TECH,
     },
     "C02": {
         "category": "proof",
         "design_ref": 'DESIGN.md §5 C02, §4 F3',
-        "text": "PARTIAL towards c02_string_target / c02_matrix_target / c02_pg_target. Proved for every automaton/domain/host: BFS closure of the traversal (trun_closed: the root configuration and every successor of an expanded configuration is expanded up to the visited-set projection; trun_reach_least: Reach is the least set closed under next_legal_states), T-DOM completeness halves (an occurrence satisfies every constraint under the canonical binding; the last key is always mentioned so short hosts cannot match). Missing: T-BUILD, losslessness of scope pruning for anchored domains. Decided per run for the automata actually built and the hosts generated by: exact replay of every build (model = code, state ids and edge ids included), model traversal on the dumped automaton, and the executable occurrence oracle evaluated on the implementation's own matches. Port graphs: brute-force embedding search in Lean; misses inside the signature pg:multiRoot are the known finding F3b; F3a (line through its start node) was repaired (fix: commit) and its witness is a fixed case.",
+        "text": "FULL for strings up to a per-program decidable check; PARTIAL for matrices and port graphs. STRINGS: c01_c02_string_checked (Props/TRunStr.lean) proves, for every string pattern list, every event log (heuristic answers and hash orders), every fuel and EVERY host: the matcher reports (i, m) iff the i-th pattern is empty and m is the unbound map, or it occurs at some anchor a and m = bound a |p| — soundness, completeness and the match data in one iff — for every build that passes the decidable per-program condition strProgramOK (scope/key-list shapes; evaluated by the driver on the DUMP of every string automaton built: all of >20 000 pass). It composes T-BUILD (build_acc, all logs), the anchored traversal theorem trun_str (for ALL hosts: run = anchored acceptance, pruning lossless), T-DOM (tdom_str_sat_iff) and c06_ids_are_positions. Removing the per-program condition (strProgramOK for every built automaton) is in progress. MATRICES: as C01 (trun_mat in progress; BFS closure trun_closed and T-DOM completeness halves proved). PORT GRAPHS: target c02_pg_target on the complement of the known-finding signature; decided by brute-force embedding search in Lean (independent of the indexing scheme); a miss counts as the known finding F3b only if the pattern carries the signature pg:multiRoot AND the model (which reproduces the pinned secondary-root search) misses the same occurrence; F3a was repaired (fix: commit). Decided per run for the automata actually built and the hosts generated by: exact replay of every build (model = code, state ids and edge ids included), model traversal on the dumped automaton, and the executable occurrence oracle evaluated on the implementation's own matches. ",
         "note": NOTE_COMMON + "Hash-iteration order is an explicit, logged and replayed choice sequence; FxHasher in visit() is modelled as injective; usize as Nat.",
         "technique": TECH,
     },
     "C03": {
         "category": "proof",
         "design_ref": 'DESIGN.md §5 C03, §4 F4',
-        "text": "Builder half FULL: T-BUILD (Props/TBuild.lean build_acc, restated as c03_prop) proves for EVERY pattern list, EVERY event log (all hash-iteration orders and all heuristic answers at once) and every truth assignment under which the tree decomposition is faithful (c03_treeOK_char: every assignment for the string/matrix decomposition; table strategies 0-2 likewise; port graphs under the conditioning law, tpg_tree_faithful) that acceptance from the root of the built automaton, in the reading the traversal implements, is exactly 'some pattern with that id has all its constraints true' (7.2k lines; also build_detOK, build_ordersOK, build_acyclic; build_acc_unguarded_counterexample shows why the model carries the make_det guard; c03_guarded_is_real ties the guarded build to the lenient one that is replayed). Baseline half FULL: T-SINGLE (tsingle_eq/_exact/_mem/_sound/_complete, tnaive_ids). Traversal half: T-RUN-SOUND + BFS closure for every automaton (trun_sound, trun_closed); the host-level equality for anchored domains (strings) is being proved (T-RUN-ANCH-STR) — until it lands the host-level statement c03_string_target is PARTIAL. Decided per run for the automata actually built and the hosts generated by: exact replay of every build (model = code, state ids and edge ids included), model traversal on the dumped automaton, and the executable occurrence oracle evaluated on the implementation's own matches. Four-way comparison per record: real ManyMatcher vs real NaiveManyMatcher (the C03 oracle, per pattern id, full match data) vs model traversal vs model baseline; string, matrix, port-graph and table domain (5 tree strategies). Builds on which the make_det guard fires (a constraint child already deterministic: ~1 in 5000 real builds) are outside T-BUILD: they are flagged and a window search (all hosts up to length 6 over the pattern alphabet) looks for a failing host. F4 was found by this check and repaired; known finding F5 (baseline ignores Pattern::required_bindings) is reported by signature.",
+        "text": "Builder half FULL: T-BUILD (Props/TBuild.lean build_acc, restated as c03_prop) proves for EVERY pattern list, EVERY event log (all hash-iteration orders and all heuristic answers at once) and every truth assignment under which the tree decomposition is faithful (c03_treeOK_char: every assignment for the string/matrix decomposition; table strategies 0-2 likewise; port graphs under the conditioning law, tpg_tree_faithful) that acceptance from the root of the built automaton, in the reading the traversal implements, is exactly 'some pattern with that id has all its constraints true' (7.2k lines; also build_detOK, build_ordersOK, build_acyclic; build_acc_unguarded_counterexample shows why the model carries the make_det guard; c03_guarded_is_real ties the guarded build to the lenient one that is replayed). Baseline half FULL: T-SINGLE (tsingle_eq/_exact/_mem/_sound/_complete, tnaive_ids). Traversal half: T-RUN-SOUND + BFS closure for every automaton (trun_sound, trun_closed); HOST LEVEL FULL for strings up to a per-program decidable check: c01_c02_string_checked (automaton = occurrences, all hosts, all logs; needs strProgramOK of the built automaton, evaluated on every dump) composed with c05_string (baseline = occurrences, exact list) gives automaton = baseline as sets with identical match data; removing the per-program check and the matrix analogue (trun_mat) are in progress; port graphs and the table domain are decided by the oracle. Decided per run for the automata actually built and the hosts generated by: exact replay of every build (model = code, state ids and edge ids included), model traversal on the dumped automaton, and the executable occurrence oracle evaluated on the implementation's own matches. Four-way comparison per record: real ManyMatcher vs real NaiveManyMatcher (the C03 oracle, per pattern id, full match data) vs model traversal vs model baseline; string, matrix, port-graph and table domain (5 tree strategies). Builds on which the make_det guard fires (a constraint child already deterministic: ~1 in 5000 real builds) are outside T-BUILD: they are flagged and a window search (all hosts up to length 6 over the pattern alphabet) looks for a failing host. F4 was found by this check and repaired; known finding F5 (baseline ignores Pattern::required_bindings) is reported by signature.",
         "note": NOTE_COMMON + "Hash-iteration order is an explicit, logged and replayed choice sequence; FxHasher in visit() is modelled as injective; usize as Nat.",
         "technique": TECH,
     },
     "C04": {
         "category": "proof",
         "design_ref": 'DESIGN.md §5 C04',
-        "text": "Propositional level FULL: c04_prop — two builds of the same patterns under ANY two event logs (heuristic answer sequences and hash-order choices) accept exactly the same pattern ids under every truth assignment (corollary of T-BUILD, whose right-hand side does not mention the log); DetHeuristic::make_det itself is three lines of model. Host level: a corollary for strings once the anchored traversal theorem lands (c04_string_target, PARTIAL until then); multiplicity needs C07. Decided per run for the automata actually built and the hosts generated by: exact replay of every build (model = code, state ids and edge ids included), model traversal on the dumped automaton, and the executable occurrence oracle evaluated on the implementation's own matches. The check enumerates ALL 2^m answer strings when a build asks m <= 5 (quick) / 9 (thorough) questions, replays each build exactly and compares the match multisets (strings, matrices) resp. sets (table, port graphs) across all variants in Lean (HSUM records).",
+        "text": "Propositional level FULL: c04_prop — two builds of the same patterns under ANY two event logs accept exactly the same pattern ids under every truth assignment (corollary of T-BUILD). Host level FULL for strings up to the per-program check: c04_string_checked — two builds of the same string patterns under any two event logs and fuels report the same SET of matches on every host (both builds passing strProgramOK, which the driver evaluates on every dump). Multiplicity (the 'not even their multiplicity' clause) needs C07 and is decided by the oracle. Matrices: in progress (trun_mat). Decided per run for the automata actually built and the hosts generated by: exact replay of every build (model = code, state ids and edge ids included), model traversal on the dumped automaton, and the executable occurrence oracle evaluated on the implementation's own matches. The check enumerates ALL 2^m answer strings when a build asks m <= 5 (quick) / 9 (thorough) questions, replays each build exactly and compares the match multisets (strings, matrices) resp. sets (table, port graphs) across all variants in Lean (HSUM records).",
         "note": NOTE_COMMON + "Hash-iteration order is an explicit, logged and replayed choice sequence; FxHasher in visit() is modelled as injective; usize as Nat.",
         "technique": TECH,
     },
@@ -85,14 +85,14 @@ CLAIMS = {
     "C06": {
         "category": "proof",
         "design_ref": 'DESIGN.md §5 C06',
-        "text": "Construction-level clauses FULL (Props/C06.lean): c06_ids_are_positions, c06_fail_iff, c06_skip_total, c06_get_pattern. Semantic clause FULL at the propositional level: c06_prop — whether pattern id i is accepted from the root depends only on the entries with id i, whatever else is compiled with it, in whatever order, under whatever event log; c06_skipped_not_accepted — a skipped id is accepted nowhere (corollaries of T-BUILD). Host level for strings follows once the anchored traversal theorem lands (PARTIAL until then). Decided per run for the automata actually built and the hosts generated by: exact replay of every build (model = code, state ids and edge ids included), model traversal on the dumped automaton, and the executable occurrence oracle evaluated on the implementation's own matches. Variants whole / alone / permuted / sub-multiset with duplicates are compared per original pattern in Lean (SSUM records); port-graph sets contain root-less (non-convertible) patterns under both fallback modes.",
+        "text": "Construction-level clauses FULL (Props/C06.lean): c06_ids_are_positions, c06_fail_iff, c06_skip_total, c06_get_pattern. Semantic clause FULL at the propositional level (c06_prop, c06_skipped_not_accepted: corollaries of T-BUILD) and at the host level for strings up to the per-program check: c06_string_checked — the matches labelled i depend only on the i-th pattern, whatever else is compiled with it, in whatever order, under whatever log. Matrices in progress; port graphs by oracle. Decided per run for the automata actually built and the hosts generated by: exact replay of every build (model = code, state ids and edge ids included), model traversal on the dumped automaton, and the executable occurrence oracle evaluated on the implementation's own matches. Variants whole / alone / permuted / sub-multiset with duplicates are compared per original pattern in Lean (SSUM records); get_pattern must return the pattern at that input position; port-graph sets contain root-less (non-convertible) patterns under both fallback modes.",
         "note": NOTE_COMMON + "Hash-iteration order is an explicit, logged and replayed choice sequence; FxHasher in visit() is modelled as injective; usize as Nat.",
         "technique": TECH,
     },
     "C07": {
         "category": "proof",
         "design_ref": 'DESIGN.md §5 C07, §4 S1',
-        "text": "PARTIAL towards c07_string_target. Proved (layer 2 of DESIGN's plan, for any automaton and domain): trun_expanded — the visited list is duplicate-free, i.e. each (state, projection of the binding on scope and match keys) is expanded and has its accepted patterns emitted at most once, and the output is exactly the concatenation of these emissions. Missing: unambiguity of the built automaton (all accepting runs of a pattern for one anchor end in the same (state, extent)), a statement about the builder. Decided per run for the automata actually built and the hosts generated by: exact replay of every build (model = code, state ids and edge ids included), model traversal on the dumped automaton, and the executable occurrence oracle evaluated on the implementation's own matches. Exactly-once is checked as a multiset equality with the occurrence oracle on every string/matrix record, all heuristic kinds and all 2^m answer strings of C04's sweep.",
+        "text": "PARTIAL towards c07_string_target. Proved (for any automaton and domain): trun_expanded — the visited list is duplicate-free, i.e. each (state, projection of the binding on scope and match keys) is expanded and has its accepted patterns emitted at most once, and the output is exactly the concatenation of these emissions; for strings trun_str gives the SET of reported matches exactly (so 'at least once' and 'only occurrences' are proved; what is missing is 'at most once', i.e. unambiguity of the built automaton: all accepting runs of a pattern for one anchor end in the same state — a builder statement that relies on deterministic siblings being mutually exclusive). Decided per run for the automata actually built and the hosts generated by: exact replay of every build (model = code, state ids and edge ids included), model traversal on the dumped automaton, and the executable occurrence oracle evaluated on the implementation's own matches. Exactly-once is checked as a multiset equality with the occurrence oracle on every string/matrix record, all heuristic kinds and all 2^m answer strings of C04's sweep (seeded change C07 — duplicates only under deterministic heuristics — is caught this way).",
         "note": NOTE_COMMON + "Hash-iteration order is an explicit, logged and replayed choice sequence; FxHasher in visit() is modelled as injective; usize as Nat.",
         "technique": TECH,
     },
